@@ -39,7 +39,7 @@ def _all_num(x):
 
 
 #: external calls that change no value the evaluated fragment can see (their process-wide effect is C16-R5's business)
-_NO_VALUE_EFFECT = {"attrs.validators.set_disabled", "attr.validators.set_disabled", "warnings.simplefilter", "warnings.filterwarnings"}
+_NO_VALUE_EFFECT = {"attrs.validators.set_disabled", "attr.validators.set_disabled", "attrs.validators.disabled", "attr.validators.disabled", "warnings.simplefilter", "warnings.filterwarnings", "numpy.seterr", "numpy.errstate", "numpy.set_printoptions"}
 
 
 class Raised(Exception):
@@ -227,6 +227,16 @@ class _Expr(SymEval):
             return isinstance(v, (int, float, bool, np.integer, np.floating, np.bool_)) or (isinstance(v, np.ndarray) and v.dtype != object)
 
         if isinstance(a, str) and isinstance(b, str) and isinstance(n.op, ast.Add):
+            return a + b
+        _setlike = (set, frozenset, type({}.keys()), type({}.items()), list)  # (dictionary views are modelled as lists)
+        if isinstance(a, _setlike) and isinstance(b, _setlike) and isinstance(n.op, (ast.BitAnd, ast.BitOr, ast.Sub, ast.BitXor)):
+            # set algebra (also on dictionary views): a plain set; its elements are ordered by sorted() here so that the
+            # evaluation is reproducible -- whether the program may depend on that order is the set-order rule's clause
+            import operator as _op
+
+            res_ = {ast.BitAnd: _op.and_, ast.BitOr: _op.or_, ast.Sub: _op.sub, ast.BitXor: _op.xor}[type(n.op)](set(a), set(b))
+            return set(sorted(res_, key=repr))
+        if isinstance(a, list) and isinstance(b, list) and isinstance(n.op, ast.Add):
             return a + b
         if isinstance(a, str) and isinstance(n.op, ast.Mod):
             try:
@@ -605,8 +615,17 @@ class _Expr(SymEval):
                 return _prog_call(getattr(base, f.attr), *args)
             if isinstance(base, (set, frozenset)) and f.attr in ("difference", "union", "intersection", "issubset", "issuperset", "symmetric_difference", "add", "copy", "isdisjoint"):
                 return _prog_call(getattr(base, f.attr), *[self.eval(a) for a in n.args])
-            if isinstance(base, list) and f.attr in ("append", "extend", "index", "count", "copy", "insert", "pop"):
+            if isinstance(base, list) and f.attr in ("append", "extend", "index", "count", "copy", "insert", "pop", "reverse", "clear", "remove"):
                 return _prog_call(getattr(base, f.attr), *[self.eval(a) for a in n.args])
+            if isinstance(base, list) and f.attr == "sort" and not n.args:
+                kwv = {k.arg: self.eval(k.value) for k in n.keywords}
+                keyf = kwv.get("key")
+                keys = [self._call_value(keyf, [x]) for x in base] if keyf is not None else list(base)
+                if any(isinstance(k_, (Sym, Rec)) or (isinstance(k_, np.ndarray) and k_.dtype == object) for k_ in keys):
+                    raise NotSymbolic("ordering by a symbolic key")
+                order = _prog_call(sorted, range(len(base)), key=lambda i: keys[i], reverse=bool(kwv.get("reverse", False)))
+                base[:] = [base[i] for i in order]  # in place, stable: the caller's list object is re-ordered
+                return None
             if isinstance(base, dict) and f.attr in ("update", "get", "items", "keys", "values", "setdefault", "pop", "copy"):
                 args = [self.eval(a) for a in n.args]
                 kw = {k.arg: self.eval(k.value) for k in n.keywords if k.arg is not None}
@@ -777,15 +796,20 @@ class _Expr(SymEval):
                 if hook is None:
                     raise NotSymbolic("open() without a model file")
                 return hook(margs, mkw)
-            if f.id == "next" and len(n.args) == 1:
+            if f.id == "next" and len(n.args) in (1, 2):
                 it_ = self.eval(n.args[0])
-                if isinstance(it_, Rec):
-                    return self.owner.call_method(it_, "__next__", [], {})
-                if hasattr(it_, "__next__") and not isinstance(it_, (Sym, np.ndarray)):
-                    try:
-                        return next(it_)
-                    except StopIteration:
-                        raise Raised("StopIteration") from None
+                try:
+                    if isinstance(it_, Rec):
+                        return self.owner.call_method(it_, "__next__", [], {})
+                    if hasattr(it_, "__next__") and not isinstance(it_, (Sym, np.ndarray)):
+                        try:
+                            return next(it_)
+                        except StopIteration:
+                            raise Raised("StopIteration") from None
+                except Raised as r_:
+                    if r_.args[0] == "StopIteration" and len(n.args) == 2:
+                        return self.eval(n.args[1])  # next(it, default)
+                    raise
                 raise NotSymbolic("next() of a non-iterator")
             if f.id == "bool" and len(n.args) == 1:
                 return self._truth(self.eval(n.args[0]))
